@@ -26,6 +26,7 @@ type optDelta struct {
 	Level      *uint32 `json:"level,omitempty"`
 	Conc       *int    `json:"conc,omitempty"`
 	Legacy     *bool   `json:"legacy,omitempty"`
+	BSRaw      *uint32 `json:"bsraw,omitempty"` // BlockSizeOption with this value, which is none of the four defined sizes
 }
 
 func (d optDelta) String() string {
@@ -52,6 +53,9 @@ func (d optDelta) String() string {
 	if d.Legacy != nil {
 		add("legacy", *d.Legacy)
 	}
+	if d.BSRaw != nil {
+		add("undefined-block-size", *d.BSRaw)
+	}
 	return "{" + s + "}"
 }
 
@@ -77,6 +81,7 @@ type c17WCase struct {
 	Sched    []int `json:"sched,omitempty"`    // virtual-time delays (microseconds) at the hook sites, cyclic
 	SinkFail int   `json:"sinkfail,omitempty"` // > 0: the k-th Write call on every sink fails (once, or from then on)
 	Sticky   bool  `json:"sticky,omitempty"`
+	FailKind int   `json:"failkind,omitempty"` // the injected sink error: 0 plain, 1 wraps io.EOF, 2 wraps io.ErrUnexpectedEOF
 }
 
 // recorded option vector of the model (NewWriter defaults)
@@ -138,6 +143,9 @@ func (d *optDelta) options() []lz4.Option {
 	}
 	if d.Legacy != nil {
 		o = append(o, lz4.LegacyOption(*d.Legacy))
+	}
+	if d.BSRaw != nil {
+		o = append(o, lz4.BlockSizeOption(lz4.BlockSize(*d.BSRaw)))
 	}
 	return o
 }
@@ -251,7 +259,7 @@ func (r *wRun) run(c c17WCase) {
 	}
 	class := func(s string) { r.classes = append(r.classes, s) }
 	newSink := func() *inst.Sink {
-		return &inst.Sink{Cap: 48<<20 + 2*total, FailAt: c.SinkFail, Sticky: c.Sticky}
+		return &inst.Sink{Cap: 48<<20 + 2*total, FailAt: c.SinkFail, Sticky: c.Sticky, FailWith: []error{nil, inst.ErrInjectedWrapsEOF, inst.ErrInjectedWrapsUnexpectedEOF}[c.FailKind%3]}
 	}
 	// a call that reports the injected sink failure puts the object into its error state: from then on, until Reset,
 	// calls may fail but must neither hang nor panic
@@ -276,6 +284,16 @@ func (r *wRun) run(c c17WCase) {
 		switch op.Op {
 		case "apply":
 			err := w.Apply(op.Set.options()...)
+			if op.Set.BSRaw != nil {
+				// a block size that is none of the four defined ones: whatever Apply answers (it ought to be an error), the calls
+				// that follow must neither hang nor panic; nothing else is judged until Reset
+				class("misuse/apply-undefined-block-size")
+				if err == nil {
+					class("misuse/apply-undefined-block-size/accepted")
+				}
+				state = wsErrored
+				break
+			}
 			switch state {
 			case wsFresh:
 				if err != nil {
@@ -587,6 +605,7 @@ func drawC17WAfterFailure(t *rapid.T) c17WCase {
 	var c c17WCase
 	c.SinkFail = rapid.IntRange(1, 5).Draw(t, "sinkfail")
 	c.Sticky = rapid.Bool().Draw(t, "sticky")
+	c.FailKind = rapid.IntRange(0, 2).Draw(t, "failkind")
 	d := &optDelta{BS: ip(4), Conc: ip(rapid.SampledFrom([]int{1, 1, 2, 4}).Draw(t, "conc"))}
 	if rapid.IntRange(0, 3).Draw(t, "legacy?") == 0 {
 		d.Legacy = bp(true)
@@ -644,6 +663,11 @@ func drawC17W(t *rapid.T) c17WCase {
 		switch op.Op {
 		case "apply":
 			op.Set = drawOptDelta(t)
+			if rapid.IntRange(0, 7).Draw(t, "undefined-bs?") == 0 {
+				op.Set = &optDelta{} // (alone: the options in front of a failing one in the same Apply have taken effect)
+				op.Set.BSRaw = u32p(rapid.SampledFrom([]uint32{8 << 20, 0, 1, 65535, 65537, 4<<20 + 1, 16 << 20, 1 << 31}).Draw(t, "bsraw"))
+				state = wsErrored
+			}
 			if state != wsFresh {
 				state = wsErrored
 			}
@@ -675,6 +699,7 @@ func drawC17W(t *rapid.T) c17WCase {
 		// histories that go on after a sink failure (without Reset: may fail, must not hang or panic; after Reset: as new)
 		c.SinkFail = rapid.IntRange(1, 8).Draw(t, "sinkfail")
 		c.Sticky = rapid.Bool().Draw(t, "sticky")
+		c.FailKind = rapid.IntRange(0, 2).Draw(t, "failkind")
 	}
 	return c
 }
@@ -710,6 +735,7 @@ func TestC17WriterExhaustive(t *testing.T) {
 		{Op: "apply", Set: &optDelta{Legacy: bp(false)}},
 		{Op: "apply", Set: &optDelta{Conc: ip(2)}},
 		{Op: "apply", Set: &optDelta{Conc: ip(1), ContentSum: bp(false)}},
+		{Op: "apply", Set: &optDelta{BSRaw: u32p(8 << 20)}},
 		{Op: "write", N: 0}, {Op: "write", N: 7, Seed: 1}, {Op: "write", N: 70000, Seed: 2},
 		{Op: "readfrom", N: 9, Seed: 4}, {Op: "flush"}, {Op: "close"}, {Op: "reset"},
 	}
